@@ -1,5 +1,5 @@
 (* C12 — allOf inheritance.  Nothing but theorem statements, each closed by `exact` of a lemma of
-   proofs/AllOfProofs.v, each followed by Print Assumptions.
+   proofs/AllOfProofs.v or proofs/AllOfFullProofs.v, each followed by Print Assumptions.
 
    Objects:  model/AllOf.v   = core/compile_catalog.go ProcessAllOf ... inheritPropertiesFromUserType
                                on an explicit heap (in-place mutation, shallow copies sharing
@@ -16,32 +16,50 @@
 
    What is decided here, and how far:
 
-   * allof_correct_skeleton (the `_partial` of allof_correct) — for EVERY project accepted by the
-     library in the class env_skeleton:
-       (1) no object with an allOf rule lies inside another object with an allOf rule (below an
-           object with a rule everything is plain; above it only objects and arrays without rule);
-       (2) every user type NAMED in some allOf rule has its own rules at its root only.
-     So: rules on nested objects and on array items, at any depth, in use-site schemas (Path, Query,
-     Headers, Body, JSON-RPC Params/Result) and in user types nobody inherits from; flat bases;
-     any number of types, any acyclic inheritance graph (chains, several bases, shared bases, empty
-     diamonds), any declaration order, any set of use sites.  The stage returns without error,
-     without panic and within its fuel, and every user type and every use-site schema renders
-     exactly as spec_tree.
-     NOT covered (see the comment at the end): a BASE type with a rule below its root (its
-     children are copied by value and the copies share the mutated grandchildren), and a rule
-     inside an object that has a rule itself.  There the statement is decided for all projects of
-     the bounded enumeration by the extracted model (c12.py, model search: no deviation left).
-   * allof_correct_rootlevel — the corollary for projects whose rules all sit at schema roots.
-   * bases_unchanged, order_independent — same class as allof_correct_skeleton.
-   * bases_checked, undefined_base_rejected, non_object_base_rejected — unconditional (ANY project).
+   * allof_correct — for EVERY project accepted by the library (lib_ok), no restriction on where the
+     rules stand: rules at schema roots, on nested objects, on array items, at any depth, inside
+     objects that carry a rule themselves; in use-site schemas (Path, Query, Headers, Body,
+     JSON-RPC Params/Result), in user types nobody inherits from AND in base types (whose
+     children are copied by value into every heir, the copies sharing the mutated
+     grandchildren); any number of types, any acyclic inheritance graph (chains of any length,
+     several bases, shared bases, empty diamonds), any declaration order, any set of use sites.
+     The stage returns without error, without panic and within its fuel, every user type and
+     every use-site schema renders exactly as spec_tree, and every node that carries no rule is
+     physically untouched.
+     Proof (proofs/AllOfHeapTyping.v, AllOfCopyLoop.v, AllOfProcess.v, AllOfFullProofs.v): a typing
+     of the heap — every node, original or by-value copy, stands for a source subtree, its
+     children for a suffix of that subtree's closure (`node_ok`) — that holds in EVERY
+     intermediate state; `keeps`: a node that has all children of its closure is never written
+     again (so a copy, which is only ever taken from a completed node, is completed and stays
+     so: the shared grandchildren are harmless, a second visit through a copy or through another
+     heir finds every property as an inherited one and does nothing); `lframe`: a visit of a
+     node only writes nodes whose closure needs no more spec fuel than its own, and children and
+     bases need strictly less (acyclicity) — so the object being filled is not touched by the
+     visits it triggers, and S d units of fuel suffice at level d (`visit_level`).
+   * allof_correct_skeleton, allof_correct_rootlevel (first rounds; their own proof by a shape
+     invariant, AllOfProofs.v) and allof_correct_skeleton2 — the classes env_skeleton (no rule
+     inside an object with a rule, bases have rules at their root only), env_root_level,
+     env_skeleton2 (env_skeleton without the clause on bases: a BASE may carry rules on nested
+     objects and array items): now corollaries of allof_correct; kept because they name the
+     shapes (c12.py prints how many generated projects fall into each).
+   * bases_unchanged_all, order_independent_all — every accepted project (bases_unchanged,
+     order_independent: the same for env_skeleton, kept).
+   * nodes_only_grow, bases_checked, undefined_base_rejected, non_object_base_rejected —
+     unconditional (ANY project, accepted by the library or not): every node keeps its key, token
+     type, rule and mark for ever and its children list only gains entries in front.
    * array_items_inherit, rpc_schemas_inherit — the two classes of accepted documents on which the
      code contradicted the property before a2c8521 / d4084b3 (then: allof_in_array_refuted,
-     allof_in_rpc_refuted), now positive. *)
+     allof_in_rpc_refuted), now positive.
+   NOT covered by a theorem (see the comment at the end): override_rejected as a statement about
+   whole runs of ANY project (under lib_ok the situation cannot arise: the library rejects the
+   duplicate key first; the turn of the loop that rejects is override_rejected_step).  lib_ok
+   itself is an assumption about the schema library, compared with the real library on every
+   generated document. *)
 From Coq Require Import List NArith Bool String Permutation.
 From JV.lib Require Import Bytes.
 From JV.model Require Import AllOf.
 From JV.spec Require Import AllOfSpec.
-From JV.proofs Require Import AllOfProofs.
+From JV.proofs Require Import AllOfProofs AllOfFullProofs.
 Import ListNotations.
 Open Scope nat_scope.
 Open Scope string_scope.
@@ -49,6 +67,30 @@ Open Scope string_scope.
 (* renders_as_spec e w: for every rendering fuel >= 2 * env_size e + 3, every user type
    (w_types w pairs with e_types e, name by name) and every use-site schema renders in w's heap as
    spec_schema e says. *)
+
+(* every library-accepted project *)
+Theorem allof_correct :
+  forall e, lib_ok e = true ->
+  exists w, run e = ROk w /\
+            renders_as_spec e w /\
+            w_types w = w_types (init_world e) /\ w_uses w = w_uses (init_world e) /\
+            (forall i n, get (w_state (init_world e)) i = Some n -> n_allof n = [] -> get (w_state w) i = Some n).
+Proof. exact allof_correct_lemma. Qed.
+Print Assumptions allof_correct.
+
+(* the shape (A) alone: every schema is a skeleton, a base may carry rules below its root *)
+Theorem allof_correct_skeleton2 :
+  forall e, lib_ok e = true -> env_skeleton2 e = true ->
+  exists w, run e = ROk w /\
+            renders_as_spec e w /\
+            w_types w = w_types (init_world e) /\ w_uses w = w_uses (init_world e) /\
+            (forall i n, get (w_state (init_world e)) i = Some n -> n_allof n = [] -> get (w_state w) i = Some n).
+Proof. exact allof_correct_skeleton2_lemma. Qed.
+Print Assumptions allof_correct_skeleton2.
+
+Theorem skeleton2_contains_skeleton : forall e, env_skeleton e = true -> env_skeleton2 e = true.
+Proof. exact env_skeleton_skeleton2. Qed.
+Print Assumptions skeleton2_contains_skeleton.
 
 Theorem allof_correct_skeleton :
   forall e, lib_ok e = true -> env_skeleton e = true ->
@@ -92,6 +134,41 @@ Theorem order_independent :
       render fuel (w_state w1) r1 = render fuel (w_state w2) r2 /\ render fuel (w_state w1) r1 <> None.
 Proof. exact order_independent_lemma. Qed.
 Print Assumptions order_independent.
+
+(* the same two for every accepted project.  What is left as declared: every node without a rule
+   (every base without a rule of its own, every property of every type, every array, every
+   scalar).  A node WITH a rule — the root of a base as well as an object nested in a base — gets
+   its inherited properties in place, as allof_correct says, and nothing else happens to it:
+   nodes_only_grow. *)
+Theorem bases_unchanged_all :
+  forall e, lib_ok e = true ->
+  exists w, run e = ROk w /\
+            forall i n, get (w_state (init_world e)) i = Some n -> n_allof n = [] -> get (w_state w) i = Some n.
+Proof. exact bases_unchanged_all_lemma. Qed.
+Print Assumptions bases_unchanged_all.
+
+Theorem order_independent_all :
+  forall e1 e2,
+  lib_ok e1 = true -> lib_ok e2 = true ->
+  Permutation (e_types e1) (e_types e2) ->
+  exists w1 w2, run e1 = ROk w1 /\ run e2 = ROk w2 /\
+    forall name t r1 r2 fuel,
+      In (name, Some t) (e_types e1) -> In (name, Some r1) (w_types w1) -> In (name, Some r2) (w_types w2) ->
+      2 * (env_size e1 + env_size e2) + 3 <= fuel ->
+      render fuel (w_state w1) r1 = render fuel (w_state w2) r2 /\ render fuel (w_state w1) r1 <> None.
+Proof. exact order_independent_all_lemma. Qed.
+Print Assumptions order_independent_all.
+
+(* ANY project, accepted or not: a node of the initial heap keeps its key, token type, allOf rule and
+   mark, and its children list only gains entries in front *)
+Theorem nodes_only_grow :
+  forall e w, run e = ROk w ->
+  forall i n, get (w_state (init_world e)) i = Some n ->
+  exists n', get (w_state w) i = Some n' /\
+             n_key n' = n_key n /\ n_tok n' = n_tok n /\ n_allof n' = n_allof n /\ n_inh n' = n_inh n /\
+             exists inherited, n_children n' = (inherited ++ n_children n)%list.
+Proof. exact nodes_only_grow_lemma. Qed.
+Print Assumptions nodes_only_grow.
 
 (* ANY project (nested allOf, cycles, clashes, no library in front): if the stage comes back
    without error then every base named at the root of a user type or of a visited use-site schema
@@ -185,6 +262,49 @@ Theorem skeleton_example :
 Proof. exact skeleton_example_lemma. Qed.
 Print Assumptions skeleton_example.
 
+(* the shapes that were outside allof_correct_skeleton.  ex_deep_base: three levels of inheritance
+   (@c <- @b <- @a, declared heirs first); the base @a carries a rule on a nested object, on an
+   array item (two bases) and two levels down; used from a response body, below an array in a
+   JSON-RPC result and on a nested object of a query: in env_skeleton2, not in env_skeleton.
+   ex_nested, ex_array: a rule inside an object with a rule: in neither class, inside
+   allof_correct. *)
+Theorem deep_base_example :
+  lib_ok ex_deep_base = true /\ env_skeleton2 ex_deep_base = true /\ env_skeleton ex_deep_base = false /\
+  compare_env ex_deep_base = VAgree /\
+  uses_of ex_deep_base =
+  ROk [(URespBody,
+        Some (robj [rprop "p" "@c" TObject [leaf "x" "@x"; leaf "q" ""];
+                    rprop "l" "@c" TArray [RNode None TObject [] [rprop "y" "@y" TArray [RNode None TOther [] []];
+                                                                  leaf "x" "@x"; leaf "m" ""];
+                                           RNode None TOther [] []];
+                    rprop "q" "@c" TObject [rprop "r" "" TObject [rprop "y" "@y" TArray [RNode None TOther [] []]]];
+                    leaf "a" "@c"; leaf "b" "@c"; leaf "c" "@c"; leaf "z" ""]));
+       (URpcResult,
+        Some (RNode None TArray []
+               [RNode None TObject []
+                  [rprop "p" "@b" TObject [leaf "x" "@x"; leaf "q" ""];
+                   rprop "l" "@b" TArray [RNode None TObject [] [rprop "y" "@y" TArray [RNode None TOther [] []];
+                                                                 leaf "x" "@x"; leaf "m" ""];
+                                          RNode None TOther [] []];
+                   rprop "q" "@b" TObject [rprop "r" "" TObject [rprop "y" "@y" TArray [RNode None TOther [] []]]];
+                   leaf "a" "@b"; leaf "b" "@b"]]));
+       (UQuery,
+        Some (robj [rprop "w" "" TObject
+                      [rprop "p" "@c" TObject [leaf "x" "@x"; leaf "q" ""];
+                       rprop "l" "@c" TArray [RNode None TObject [] [rprop "y" "@y" TArray [RNode None TOther [] []];
+                                                                     leaf "x" "@x"; leaf "m" ""];
+                                              RNode None TOther [] []];
+                       rprop "q" "@c" TObject [rprop "r" "" TObject [rprop "y" "@y" TArray [RNode None TOther [] []]]];
+                       leaf "a" "@c"; leaf "b" "@c"; leaf "c" "@c"; leaf "v" ""]]))].
+Proof. exact deep_base_example_lemma. Qed.
+Print Assumptions deep_base_example.
+
+Theorem nested_rule_example :
+  lib_ok ex_nested = true /\ env_skeleton2 ex_nested = false /\ compare_env ex_nested = VAgree /\
+  lib_ok ex_array = true /\ env_skeleton2 ex_array = false /\ compare_env ex_array = VAgree.
+Proof. exact nested_rule_example_lemma. Qed.
+Print Assumptions nested_rule_example.
+
 (* ---- readings of the property text, settled by computation on the model (and on the real
    code by c12.py) ---- *)
 
@@ -219,24 +339,23 @@ Print Assumptions used_types_order_dependent.
 
 (* The full statements, and what is missing for them.
 
-   allof_correct (all accepted projects):
-     forall e, lib_ok e = true -> exists w, run e = ROk w /\ renders_as_spec e w.
-   The proof of allof_correct_skeleton needs, of the heap, that a node that is ever mutated is
-   never the child of a node that is copied or mutated (heap_ok: only the INNER nodes — objects
-   and arrays without rule above a rule — have mutated children, and they are only walked
-   through).  Two situations are outside:
+   allof_correct (all accepted projects) — PROVED above.  It was `_partial` (allof_correct_skeleton)
+   as long as the proof rested on a shape invariant of the heap (heap_ok: a node that is ever
+   mutated is never the child of a node that is copied or mutated), which two situations break:
      (a) a BASE with a rule below its root (e.g. TYPE @t { "p": { // {allOf: "@x"} } } inherited by
          somebody): the mutated node p is copied by value into every inheriting object, the copies
          share p's children and are visited again through each copy;
      (b) a rule inside an object that has a rule itself: the outer object is mutated and has a
          mutated child.
-   Both need (1) a separation invariant (the regions below two unvisited schema roots are
-   disjoint trees) and (2) "a fully visited node is a fixed point of the stage" as a heap-level
-   statement, so that visits through copies change nothing.  No counterexample exists among the
-   projects of the enumeration in c12.py (model search of the thorough tier, and 8.9 million
-   projects in the one-off search after the fixes: <= 4 types, allOf at depth <= 3, every
-   declaration order, every kind of use site): the model agrees with spec_tree on every accepted
-   one — no deviating class is left.
+   The proof of allof_correct does not separate regions; it types every node by the source subtree
+   it stands for and shows (1) that every intermediate heap is typable (children = a suffix of the
+   closure), (2) that a completed node is never written again — a second visit, through a copy or
+   through another heir, finds every property of every base as an inherited one (keys of a
+   closure are pairwise different: the library's "Duplicate keys" check) — and (3) that the
+   visits triggered by a node stay strictly below its level (least spec fuel), which is
+   acyclicity.  The bounded exhaustive model-vs-spec search of c12.py stays as a check of the
+   model's extraction and of lib_ok against the real library, no longer as the only evidence for
+   (a) and (b).
 
    override_rejected (whole runs, any project):
      forall e w name ao kids b ao' kids' k, run e = ROk w ->
